@@ -5,7 +5,7 @@
    is in the section "receiver" below as far as it is proved. *)
 From Via Require Import M_Char M_Parse M_Receive P_Parse.
 From Via Require Import P_Frag P_Term.
-From Via Require Import M_Imp M_Loop M_Hdr M_Msg Gen_Parse P_Imp P_Loop P_Hdr P_Msg.
+From Via Require Import M_Imp M_Loop M_Hdr M_Msg M_Chunk Gen_Parse P_Imp P_Loop P_Hdr P_Msg P_C06b P_Chunk.
 Local Open Scope N_scope.
 
 Theorem C01_request_line_fragments : forall L a r b, rl_valid r = false ->
@@ -294,3 +294,37 @@ Example C01_request_head_source_example :
                     (mk_hs [([104;111;115;116],[104])] (fl_store fl_init) [1; 0; 1; 5]) 1, [66]).
 Proof. vm_compute. reflexivity. Qed.
 Print Assumptions C01_request_head_is_the_source.
+
+(* rx_chunk::parse(iter, end) - size line, then the data and its CR LF, or for the last chunk the trailers - translated
+   as well (a term of M_Chunk.v: std::ptrdiff_t as a signed 64-bit number, `iter + n`, data_.insert, the calls running
+   the translated functions below): for every chunk in a state the receiver can reach (rc_inv, kept by every parse -
+   P_C06b.rc_parse_inv), a configured chunk limit below 2^63, every input and every sufficient fuel, the model's
+   rc_parse returns what the translated body returns.  In particular the source's ptrdiff_t subtraction never leaves
+   its range, `iter + data_required` never passes `end`, and `*iter` is never read at `end` (each would be `None`). *)
+Theorem C01_chunk_is_the_source : forall L k buf fuel,
+  rc_inv L k -> hd_ok (rc_trailers k) -> small (ck_max (rc_hdr k)) -> (length buf + 2 <= fuel)%nat ->
+  crun (ck_lim L) (fl_lim L) (hd_lim L) (kc_of L) (hd_code_of L) fuel (rc_src L) (rc_store k) buf =
+  Some (let '(k', rest, p) := rc_parse L k buf in (is_done p, rc_store k', rest)).
+Proof. exact rc_parse_is_the_source. Qed.
+Example C01_chunk_source_example :
+  let L := mk_limits 8190 8 100 65534 1024 8 65534 65534 false in
+  match crun (ck_lim L) (fl_lim L) (hd_lim L) (kc_of L) (hd_code_of L) 40 (rc_src L) (rc_store (rc_init 1048576)) [51;13;10;97;98;99;13;10;52] with
+  | Some (true, st, rest) => cs_data st = [97;98;99] /\ rest = [52]
+  | _ => False
+  end.
+Proof. vm_compute. split; reflexivity. Qed.
+Print Assumptions C01_chunk_is_the_source.
+
+(* the resets between the requests of a connection, translated and proved as well: rx_request::clear() (through
+   request_line::clear and message_headers::clear) and rx_chunk::clear() take ANY state to the state the model starts
+   the next request from *)
+Theorem C01_request_reset_is_the_source : forall L fuel q inp,
+  mexec (rl_lim L) (fl_lim L) (hd_lim L) (rl_code_of L) (hd_code_of L) fuel rq_clear_src (mk_mst (rq_store q) inp) =
+  Some (LNormal, mk_mst (rq_store rq_init) inp).
+Proof. exact rq_clear_is_the_source. Qed.
+Theorem C01_chunk_reset_is_the_source : forall L fuel k inp rq rx nx,
+  cexec (ck_lim L) (fl_lim L) (hd_lim L) (kc_of L) (hd_code_of L) fuel rc_clear_src (mk_cst (rc_store k) inp rq rx nx) =
+  Some (LNormal, mk_cst (rc_store (rc_clear k)) inp rq rx nx).
+Proof. exact rc_clear_is_the_source. Qed.
+Print Assumptions C01_request_reset_is_the_source.
+Print Assumptions C01_chunk_reset_is_the_source.
